@@ -2,6 +2,7 @@ package main
 
 import (
 	"fmt"
+	"go/ast"
 	"go/token"
 	"go/types"
 	"sort"
@@ -25,7 +26,7 @@ func init() {
 	register(&Property{
 		ID:        "C01",
 		Title:     "Felix's computed dataplane state depends only on current datastore state",
-		Technique: "static analysis: sibling cross-check of pending-update/pending-delete families and of the tier update/delete branches (SSA dominance + post-dominance, cut-set guards), field read-set ownership, concurrency-construct ownership, interface-conversion ownership",
+		Technique: "static analysis: sibling cross-check of pending-update/pending-delete families and of the tier update/delete branches (SSA dominance + post-dominance, cut-set guards), premise/cancel/re-read cross-check of the batched sets of the calc-graph nodes, AST twin-block symmetry (IPv4/IPv6 copies compared modulo the twin substitution, type-resolved), field read-set ownership, concurrency-construct ownership, interface-conversion ownership",
 		DesignRef: "DESIGN.md §3 C01",
 		Explanation: "Decides six structural necessary conditions of history-independence. (cancel) For every EventSequencer message family, derived from the proto types XUpdate/XRemove it emits and the " +
 			"pending collections ranged over at those emissions: every store into the pending-update map is accompanied on every path by a Discard of the same key from the pending-delete set, and every Add to the " +
@@ -35,8 +36,10 @@ func init() {
 			"(tierreset) A TierInfo that survives the deletion of its Tier resource (policies still name it) has every field that the update branch copies from the Tier value overwritten by the deletion branch, or invalid tiers are skipped where the per-endpoint list is built: nothing of a deleted tier leaks into later output. " +
 			"(nilnotype) api.Update.UpdateType is read only by StatsCollector: no calc-graph node decides existence from the event type instead of Value==nil. " +
 			"(sync) go statements and channel operations occur only in the AsyncCalcGraph/decoupler shell, so the graph proper is single-threaded and its output cannot depend on goroutine schedule. " +
-			"(filter) in felix/daemon an *AsyncCalcGraph is converted to api.SyncerCallbacks only as the sink argument of calc.NewValidationFilter, and the filter's result is what is handed on.",
-		NotDecided: "That each calc-graph node (ActiveRulesCalculator, PolicyResolver, RuleScanner, L3RouteResolver, VXLANResolver, label indexes) computes a function of its current inputs only; equality of the emitted state with a fresh start over all histories.",
+			"(filter) in felix/daemon an *AsyncCalcGraph is converted to api.SyncerCallbacks only as the sink argument of calc.NewValidationFilter, and the filter's result is what is handed on. " +
+			"(pendinglive) For every batched set of a calc-graph node other than EventSequencer (a lib/set-typed struct field with Add sites and a loop that empties it: PolicyResolver.pendingPolicyUpdates/dirtyEndpoints, InheritIndex.dirtyItemIDs, ActiveRulesCalculator.missingProfiles, RouteTrie.dirtyCIDRs) and every sibling map/set/multidict M of the same struct into which the queued key is inserted on a path through the Add (in the adding function or its caller): the flush loop (or a callee handed the iteration key) re-reads M at that key, or every function that removes a key from M also Discards it from the batched set (before/after on every path, or under guards that only establish that M no longer contains the key, directly or through a helper that discards its parameter unconditionally). So start-then-stop between two flushes cannot leave a queued action whose premise no longer holds. " +
+			"(twin) Sibling statements / case clauses of felix/calc that are copies of each other up to the IPv4->IPv6 twin relation on identifiers (V4x->V6x, v4->v6, IPv4->IPv6, unmarked x->xV6 inserted anywhere, literal 4->6; block-local names alpha-renamed) use no identifier un-substituted that has a twin resolvable the same way (member of the receiver types, package scope, lexical scope): neither address family's block reads the other family's field, method, variable or type.",
+		NotDecided: "pendinglive: premises recorded in containers other than builtin map / lib/set / felix/multidict fields of the same struct (e.g. the ip.CIDRTrie behind RouteTrie.dirtyCIDRs), batches kept in plain maps, and a flush that re-derives the premise from a mirror index instead of the container written at the Add site. twin: IPv4/IPv6 code whose two halves are not structurally identical copies (one side refactored, extra statement) is not paired (the instance floor then breaks the run); unsubstituted integer/string literals. That each calc-graph node (ActiveRulesCalculator, PolicyResolver, RuleScanner, L3RouteResolver, VXLANResolver, label indexes) computes a function of its current inputs only; equality of the emitted state with a fresh start over all histories.",
 		Assumptions: []string{
 			"go/types + go/ssa (x/tools v0.50.0) model of the current source, CGO_ENABLED=0 build",
 			"set.Set / multidict / builtin map have their usual semantics (Add/Discard/Clear/DiscardKey/delete)",
@@ -45,6 +48,8 @@ func init() {
 		},
 		Run: runC01,
 		Fixtures: []Fixture{
+			{Name: "F17 re-introduced: match-stopped leaves the policy queued for the sorter", File: "felix/calc/policy_resolver.go",
+				Old: "\t\tpr.pendingPolicyUpdates.Discard(policyKey)\n", New: "", Expect: "C01.pendinglive/PolicyResolver.pendingPolicyUpdates"},
 			{Name: "F14 re-introduced: deleted tier keeps its default action", File: "felix/calc/policy_sorter.go",
 				Old: "\t\t\t\ttierInfo.DefaultAction = \"\"\n", New: "", Expect: "C01.tierreset/PolicySorter.OnUpdate/TierInfo.DefaultAction"},
 			{Name: "policy re-activation no longer cancels the pending delete", File: "felix/calc/event_sequencer.go",
@@ -76,6 +81,16 @@ func init() {
 				Old: "\t\tif update.Value == nil {\n\t\t\tdelete(pr.allPolicies, key)\n", New: "\t\tif update.UpdateType == api.UpdateTypeKVDeleted {\n\t\t\tdelete(pr.allPolicies, key)\n", Expect: "C01.nilnotype/PolicyResolver.OnUpdate"},
 			{Name: "dispatcher fans out on a goroutine", File: "felix/dispatcher/dispatcher.go",
 				Old: "\ttypeSpecificHandlers.DispatchToAll(update)\n", New: "\tgo typeSpecificHandlers.DispatchToAll(update)\n", Expect: "C01.sync/Dispatcher.OnUpdate"},
+			{Name: "endpoint flush no longer re-reads the BGP peer data recorded when the endpoint was marked dirty", File: "felix/calc/policy_resolver.go",
+				Old: "\t\tdata := pr.endpointBGPPeerData[key]\n", New: "\t\t_ = key\n\t\tvar data EndpointBGPPeer\n", Expect: "C01.pendinglive/PolicyResolver.dirtyEndpoints/endpointBGPPeerData@PolicyResolver.OnEndpointBGPPeerDataUpdate"},
+			{Name: "profile going inactive no longer cancels its queued missing-profile entry", File: "felix/calc/active_rules_calculator.go",
+				Old: "\tarc.missingProfiles.Discard(key.Name)\n", New: "", Expect: "C01.pendinglive/ActiveRulesCalculator.missingProfiles/profileIDToEndpointKeys@ActiveRulesCalculator.updateEndpointProfileIDs"},
+			{Name: "seed C01-2: IPv6 same-subnet re-evaluation is triggered by the IPv4 CIDRs", File: "felix/calc/l3_route_resolver.go",
+				Old: "\t\tif oldNodeInfo.V6CIDR != myNewV6CIDR {\n", New: "\t\tif oldNodeInfo.V4CIDR != myNewV4CIDR {\n", Expect: "C01.twin/L3RouteResolver.onNodeUpdate/V4CIDR+myNewV4CIDR"},
+			{Name: "IPv6 same-subnet test requires the local IPv4 CIDR to be known", File: "felix/calc/l3_route_resolver.go",
+				Old: "\t\treturn localNodeInfo.V6CIDR != ip.V6CIDR{} && ", New: "\t\treturn localNodeInfo.V4CIDR != ip.V4CIDR{} && ", Expect: "C01.twin/L3RouteResolver.nodeInOurSubnet/"},
+			{Name: "VXLAN resolver records the node's IPv4 address as its IPv6 address", File: "felix/calc/vxlan_resolver.go",
+				Old: "\t\tc.nodeNameToIPv6Addr[nodeName] = newIPv6\n", New: "\t\tc.nodeNameToIPv6Addr[nodeName] = newIPv4\n", Expect: "C01.twin/VXLANResolver.onNodeIPUpdate/newIPv4"},
 			{Name: "syncer feeds the calc graph without the validation filter", File: "felix/daemon/daemon.go",
 				Old: "\tgo syncerToValidator.SendToSinkForever(validator)\n", New: "\t_ = validator\n\tgo syncerToValidator.SendToSinkForever(asyncCalcGraph)\n", Expect: "C01.filter/"},
 		},
@@ -114,6 +129,10 @@ func runC01(c *Ctx) {
 
 	c.Rule("C01.tierreset", "E-PAIR/E-GUARD", "every TierInfo field that PolicySorter.OnUpdate stores when a Tier value is present is also stored when the value is nil (tier deleted but kept because policies still name it), unless the per-endpoint tier list skips tiers whose Valid flag is false", 3)
 
+	c.Rule("C01.pendinglive", "E-PAIR/E-GUARD", "for every batched set S of a calc-graph node (set-typed field with Add sites and a loop that empties it) and every sibling container M that receives the key where it is queued: the flush loop re-reads M at the iteration key, or every removal of a key from M is accompanied by S.Discard(same key) (possibly under a guard that M no longer contains it)", 9)
+
+	c.Rule("C01.twin", "E-PAIR", "IPv4/IPv6 twin blocks (sibling statements or case clauses of identical shape whose identifiers differ only by the V4->V6 twin relation) substitute every identifier that has a twin in scope: neither half uses the other family's field, method, variable or type", 36)
+
 	fams := c01Families(c, m)
 	c01TierReset(c, p)
 	c01Cancel(c, m, fams, "C01.cancel")
@@ -121,6 +140,8 @@ func runC01(c *Ctx) {
 	c01NilNoType(c, p)
 	c01Sync(c, p)
 	c01Filter(c)
+	c01PendingLive(c, p)
+	c01Twin(c, p)
 }
 
 // c01Families pairs pending-update maps with pending-delete sets through the
@@ -933,4 +954,618 @@ func c01LoadDaemon(c *Ctx, pkg string) *Prog {
 	c.nLoaded += len(p.Roots)
 	c.nFuncs += p.nFuncs
 	return p
+}
+
+// ---------------------------------------------------------- pendinglive --
+
+// A calc-graph node batches work in a set-typed field S ("pending…", "dirty…"):
+// keys are Added while updates arrive and a flush loop iterates S, acts on each
+// key and empties S.  Where the function that queues k also records k in a
+// sibling container M of the same node (map store, set Add, multidict Put), the
+// queued entry stands for "k is in M".  The node's output is a function of the
+// current state only if a later removal of k from M cannot leave a stale queued
+// action behind: either the flush loop re-reads M for the iteration key (the
+// "dirty" idiom: recompute from current state), or every site that removes k
+// from M also Discards k from S (the "pending action" idiom; the Discard may be
+// conditional on M no longer containing k, for multidicts).
+
+type c01FlushLoop struct {
+	Top, Body *ssa.Function
+	At        ssa.Instruction
+}
+
+type c01Batch struct {
+	S     *types.Var
+	Owner *types.TypeName
+	Adds  []CallSite
+	Loops []c01FlushLoop
+}
+
+type c01KeyedOp struct {
+	In  ssa.Instruction
+	Fn  *ssa.Function
+	Key ssa.Value
+}
+
+func c01PkgSuffix(t types.Type, suffix string) bool {
+	if p, ok := t.(*types.Pointer); ok {
+		t = p.Elem()
+	}
+	n, ok := t.(*types.Named)
+	return ok && n.Obj().Pkg() != nil && strings.HasSuffix(n.Obj().Pkg().Path(), suffix)
+}
+
+func c01IsSetType(t types.Type) bool { return c01PkgSuffix(t, "/lib/set") }
+
+// c01IsContainer: builtin map, lib/set set or felix/multidict multidict.
+func c01IsContainer(t types.Type) bool {
+	if c01IsSetType(t) || c01PkgSuffix(t, "/felix/multidict") {
+		return true
+	}
+	_, isMap := t.Underlying().(*types.Map)
+	return isMap
+}
+
+// c01Root: identity of a key value inside one function — the leaves of its
+// backward slice through interface conversions, type assertions, phis and local
+// variables (so `key`, `key.(model.Key)` and the `wlKey` of `wlKey, ok :=
+// key.(T)` all denote the same key).
+func c01Root(v ssa.Value) string {
+	var ls []string
+	seen := map[string]bool{}
+	for _, o := range origins(v, c01ThroughLocalStruct) {
+		s := o.Kind + ":" + path(o.V)
+		if o.Kind == "param" || o.Kind == "freevar" {
+			s = "var:" + o.V.Name()
+		}
+		if !seen[s] {
+			seen[s] = true
+			ls = append(ls, s)
+		}
+	}
+	sort.Strings(ls)
+	return strings.Join(ls, "|")
+}
+
+// c01ThroughLocalStruct: a read of a (nested) field of a local struct variable
+// denotes the value(s) stored into that field (`key := T{Name: id}; … key.Name`).
+func c01ThroughLocalStruct(v ssa.Value) []ssa.Value {
+	u, ok := v.(*ssa.UnOp)
+	if !ok || u.Op != token.MUL {
+		return nil
+	}
+	var idx []int
+	cur := u.X
+	for {
+		fa, ok := cur.(*ssa.FieldAddr)
+		if !ok {
+			break
+		}
+		idx = append([]int{fa.Field}, idx...)
+		cur = fa.X
+	}
+	al, ok := cur.(*ssa.Alloc)
+	if !ok || len(idx) == 0 || al.Referrers() == nil {
+		return nil
+	}
+	var vals []ssa.Value
+	whole := false
+	seen := map[ssa.Value]bool{}
+	var walk func(addr ssa.Value, rest []int)
+	walk = func(addr ssa.Value, rest []int) {
+		if seen[addr] || addr.Referrers() == nil {
+			return
+		}
+		seen[addr] = true
+		for _, r := range *addr.Referrers() {
+			switch x := r.(type) {
+			case *ssa.Store:
+				if x.Addr != addr {
+					continue
+				}
+				if len(rest) == 0 {
+					vals = append(vals, x.Val)
+					continue
+				}
+				// an enclosing struct is assigned as a whole: read the rest of
+				// the field path from the local struct it is copied from
+				src, ok := x.Val.(*ssa.UnOp)
+				if !ok || src.Op != token.MUL {
+					whole = true
+					continue
+				}
+				base := src.X
+				for {
+					fa, ok := base.(*ssa.FieldAddr)
+					if !ok {
+						break
+					}
+					base = fa.X
+				}
+				if _, ok := base.(*ssa.Alloc); !ok {
+					whole = true
+					continue
+				}
+				walk(src.X, rest)
+			case *ssa.FieldAddr:
+				if x.X == addr && len(rest) > 0 && x.Field == rest[0] {
+					walk(x, rest[1:])
+				}
+			}
+		}
+	}
+	walk(al, idx)
+	if whole || len(vals) == 0 {
+		return nil
+	}
+	return vals
+}
+
+// c01FieldCall: cs is a call of one of the named methods on (a load of) a struct
+// field; returns the field.
+func c01FieldCall(cs CallSite, names ...string) *types.Var {
+	if cs.Callee == nil || len(cs.Args()) == 0 {
+		return nil
+	}
+	for _, n := range names {
+		if cs.Callee.Name() == n {
+			return fieldVar(cs.Args()[0])
+		}
+	}
+	return nil
+}
+
+func c01SortedFuncs(p *Prog) []*ssa.Function {
+	fs := p.AllFuncs()
+	sort.Slice(fs, func(i, j int) bool {
+		if fs[i].Pos() != fs[j].Pos() {
+			return fs[i].Pos() < fs[j].Pos()
+		}
+		return fs[i].String() < fs[j].String()
+	})
+	return fs
+}
+
+func c01AllCalls(fs []*ssa.Function) []CallSite {
+	var out []CallSite
+	for _, f := range fs {
+		out = append(out, callsIn(f, false, func(*types.Func) bool { return true })...)
+	}
+	return out
+}
+
+// c01Batches finds the batched sets of the calc-graph node types: set-typed
+// struct fields with an Add site and a loop over the field that empties it.
+func c01Batches(c *Ctx, p *Prog, fs []*ssa.Function, calls []CallSite) []*c01Batch {
+	owner := map[*types.Var]*types.TypeName{}
+	for _, pk := range p.Roots {
+		sc := pk.Types.Scope()
+		for _, n := range sc.Names() {
+			tn, ok := sc.Lookup(n).(*types.TypeName)
+			if !ok {
+				continue
+			}
+			st, ok := tn.Type().Underlying().(*types.Struct)
+			if !ok {
+				continue
+			}
+			for i := 0; i < st.NumFields(); i++ {
+				owner[st.Field(i)] = tn
+			}
+		}
+	}
+	by := map[*types.Var]*c01Batch{}
+	get := func(s *types.Var) *c01Batch {
+		if s == nil || owner[s] == nil || !c01IsSetType(s.Type()) || owner[s].Name() == "EventSequencer" {
+			return nil
+		}
+		if by[s] == nil {
+			by[s] = &c01Batch{S: s, Owner: owner[s]}
+		}
+		return by[s]
+	}
+	bodyOf := func(v ssa.Value) *ssa.Function {
+		switch x := v.(type) {
+		case *ssa.MakeClosure:
+			f, _ := x.Fn.(*ssa.Function)
+			return f
+		case *ssa.Function:
+			return x
+		}
+		return nil
+	}
+	clears := map[*types.Var]map[*ssa.Function]bool{}
+	for _, cs := range calls {
+		if s := c01FieldCall(cs, "Add"); s != nil && len(cs.Args()) == 2 {
+			if b := get(s); b != nil {
+				b.Adds = append(b.Adds, cs)
+			}
+		}
+		if s := c01FieldCall(cs, "Clear"); s != nil {
+			if clears[s] == nil {
+				clears[s] = map[*ssa.Function]bool{}
+			}
+			clears[s][cs.Fn] = true
+		}
+		if s := c01FieldCall(cs, "Iter"); s != nil && len(cs.Args()) == 2 {
+			if b, body := get(s), bodyOf(cs.Args()[1]); b != nil && body != nil && len(body.Params) == 1 {
+				b.Loops = append(b.Loops, c01FlushLoop{cs.Fn, body, cs.Instr})
+			}
+		}
+		if s := c01FieldCall(cs, "All"); s != nil {
+			b := get(s)
+			seq := cs.Instr.Value()
+			if b == nil || seq == nil || seq.Referrers() == nil {
+				continue
+			}
+			for _, r := range *seq.Referrers() {
+				ci, ok := r.(ssa.CallInstruction)
+				if !ok || ci.Common().Value != seq || len(ci.Common().Args) != 1 {
+					continue
+				}
+				if body := bodyOf(ci.Common().Args[0]); body != nil && len(body.Params) == 1 {
+					b.Loops = append(b.Loops, c01FlushLoop{cs.Fn, body, ci})
+				}
+			}
+		}
+	}
+	var out []*c01Batch
+	for _, b := range by {
+		if len(b.Adds) == 0 || len(b.Loops) == 0 {
+			continue
+		}
+		// keep the loops that empty S: Discard of the iteration key / RemoveItem
+		// returned from the Iter callback / Clear() in the enclosing function
+		var flush []c01FlushLoop
+		for _, l := range b.Loops {
+			emptied := clears[b.S][l.Top]
+			kr := c01Root(l.Body.Params[0])
+			for _, cs := range callsIn(l.Body, true, func(f *types.Func) bool { return f.Name() == "Discard" }) {
+				if c01FieldCall(cs, "Discard") == b.S && len(cs.Args()) == 2 && c01Root(cs.Args()[1]) == kr {
+					emptied = true
+				}
+			}
+			for _, ret := range returnsOf(l.Body) {
+				for _, rv := range ret.Results {
+					for _, o := range origins(rv, nil) {
+						if g, ok := o.V.(*ssa.Global); ok && g.Name() == "RemoveItem" && g.Pkg != nil && strings.HasSuffix(g.Pkg.Pkg.Path(), "/lib/set") {
+							emptied = true
+						}
+					}
+				}
+			}
+			if emptied {
+				flush = append(flush, l)
+			}
+		}
+		if len(flush) == 0 {
+			continue
+		}
+		b.Loops = flush
+		out = append(out, b)
+	}
+	sort.Slice(out, func(i, j int) bool {
+		return out[i].Owner.Name()+"."+out[i].S.Name() < out[j].Owner.Name()+"."+out[j].S.Name()
+	})
+	return out
+}
+
+// c01KeyedInserts: instructions of f that put key (root kr) into a container
+// field: M[k] = v, M.Put(k, v), M.Add(k).
+func c01KeyedInserts(f *ssa.Function, kr string) []struct {
+	M  *types.Var
+	In ssa.Instruction
+} {
+	var out []struct {
+		M  *types.Var
+		In ssa.Instruction
+	}
+	add := func(m *types.Var, in ssa.Instruction, k ssa.Value) {
+		if m != nil && c01IsContainer(m.Type()) && c01Root(k) == kr {
+			out = append(out, struct {
+				M  *types.Var
+				In ssa.Instruction
+			}{m, in})
+		}
+	}
+	for _, b := range f.Blocks {
+		for _, in := range b.Instrs {
+			switch x := in.(type) {
+			case *ssa.MapUpdate:
+				add(fieldVar(x.Map), in, x.Key)
+			case ssa.CallInstruction:
+				cs := CallSite{x, calleeOf(x.Common()), f}
+				if m := c01FieldCall(cs, "Put", "Add"); m != nil && len(cs.Args()) >= 2 {
+					add(m, in, cs.Args()[1])
+				}
+			}
+		}
+	}
+	return out
+}
+
+// c01KeyedReads: f (or, up to two static calls deep, a callee that is handed the
+// key) reads container field M at the key: M[k], M.Contains(k…), M.ContainsKey(k),
+// M.Get(k), M.Iter(k, …).
+func c01KeyedReads(f *ssa.Function, key ssa.Value, m *types.Var, depth int) bool {
+	kr := c01Root(key)
+	found := false
+	allInstrs(f, false, func(_ *ssa.Function, in ssa.Instruction) {
+		if found {
+			return
+		}
+		switch x := in.(type) {
+		case *ssa.Lookup:
+			if fieldVar(x.X) == m && c01Root(x.Index) == kr {
+				found = true
+			}
+		case ssa.CallInstruction:
+			cs := CallSite{x, calleeOf(x.Common()), f}
+			if c01FieldCall(cs, "Contains", "ContainsKey", "Get", "Iter") == m && len(cs.Args()) >= 2 && c01Root(cs.Args()[1]) == kr {
+				found = true
+				return
+			}
+			q := calleeFn(x.Common())
+			if q == nil || q.Blocks == nil || depth >= 2 {
+				return
+			}
+			for i, a := range x.Common().Args {
+				if i < len(q.Params) && c01Root(a) == kr && c01KeyedReads(q, q.Params[i], m, depth+1) {
+					found = true
+					return
+				}
+			}
+		}
+	})
+	return found
+}
+
+// c01AbsentGuard: g establishes that container field M does not contain the key:
+// !M.ContainsKey(k) / !M.Contains(k, …) / `_, ok := M[k]; !ok`.
+func c01AbsentGuard(g Guard, m *types.Var, kr string) bool {
+	if g.True {
+		return false
+	}
+	if cs, ok := condCall(g.Cond); ok {
+		return c01FieldCall(cs, "ContainsKey", "Contains") == m && len(cs.Args()) >= 2 && c01Root(cs.Args()[1]) == kr
+	}
+	if ex, ok := g.Cond.(*ssa.Extract); ok && ex.Index == 1 {
+		if lk, ok := ex.Tuple.(*ssa.Lookup); ok && lk.CommaOk {
+			return fieldVar(lk.X) == m && c01Root(lk.Index) == kr
+		}
+	}
+	return false
+}
+
+// c01Cancelled: the removal `rem` of key (from M) in its function is accompanied
+// by S.Discard(same key): dominating or post-dominating it, or following it under
+// guards that only test that M no longer contains the key; or by a call of a
+// helper that discards its parameter from S on every path.
+func c01Cancelled(pd func(*ssa.Function) map[*ssa.BasicBlock]map[*ssa.BasicBlock]bool, rem ssa.Instruction, key ssa.Value, s, m *types.Var) bool {
+	h := rem.Parent()
+	kr := c01Root(key)
+	var cands []ssa.Instruction
+	for _, b := range h.Blocks {
+		for _, in := range b.Instrs {
+			ci, ok := in.(ssa.CallInstruction)
+			if !ok {
+				continue
+			}
+			cs := CallSite{ci, calleeOf(ci.Common()), h}
+			if c01FieldCall(cs, "Discard") == s && len(cs.Args()) == 2 && c01Root(cs.Args()[1]) == kr {
+				cands = append(cands, in)
+				continue
+			}
+			if q := calleeFn(ci.Common()); q != nil && q.Blocks != nil && q != h {
+				for i, a := range ci.Common().Args {
+					if i >= len(q.Params) || c01Root(a) != kr {
+						continue
+					}
+					pr := c01Root(q.Params[i])
+					for _, qs := range callsIn(q, false, func(f *types.Func) bool { return f.Name() == "Discard" }) {
+						if c01FieldCall(qs, "Discard") == s && len(qs.Args()) == 2 && c01Root(qs.Args()[1]) == pr && len(guardsOf(qs.Instr)) == 0 {
+							cands = append(cands, in)
+						}
+					}
+				}
+			}
+		}
+	}
+	remGuards := map[*ssa.If]bool{}
+	for _, g := range guardsOf(rem) {
+		remGuards[g.If] = true
+	}
+	for _, d := range cands {
+		if d == rem {
+			continue
+		}
+		if instrDominates(d, rem) || instrPostDominates(pd(h), d, rem) {
+			return true
+		}
+		if !instrDominates(rem, d) {
+			continue
+		}
+		ok := true
+		for _, g := range guardsOf(d) {
+			if !remGuards[g.If] && !c01AbsentGuard(g, m, kr) {
+				ok = false
+			}
+		}
+		if ok {
+			return true
+		}
+	}
+	return false
+}
+
+func c01PendingLive(c *Ctx, p *Prog) {
+	fs := c01SortedFuncs(p)
+	calls := c01AllCalls(fs)
+	batches := c01Batches(c, p, fs, calls)
+	if len(batches) == 0 {
+		c.Lost("no batched set (set-typed field with an Add site and an emptying loop) in the calc-graph node types")
+	}
+	pds := map[*ssa.Function]map[*ssa.BasicBlock]map[*ssa.BasicBlock]bool{}
+	pd := func(f *ssa.Function) map[*ssa.BasicBlock]map[*ssa.BasicBlock]bool {
+		if pds[f] == nil {
+			pds[f] = postDominators(f)
+		}
+		return pds[f]
+	}
+	structOf := func(tn *types.TypeName) *types.Struct { return tn.Type().Underlying().(*types.Struct) }
+	sibling := func(b *c01Batch, m *types.Var) bool {
+		if m == b.S {
+			return false
+		}
+		st := structOf(b.Owner)
+		for i := 0; i < st.NumFields(); i++ {
+			if st.Field(i) == m {
+				return true
+			}
+		}
+		return false
+	}
+	// removal sites of every container field
+	removals := map[*types.Var][]c01KeyedOp{}
+	for _, f := range fs {
+		for _, blk := range f.Blocks {
+			for _, in := range blk.Instrs {
+				if cc, ok := isBuiltinCall(in, "delete"); ok && len(cc.Args) == 2 {
+					if m := fieldVar(cc.Args[0]); m != nil {
+						removals[m] = append(removals[m], c01KeyedOp{in, f, cc.Args[1]})
+					}
+					continue
+				}
+				if ci, ok := in.(ssa.CallInstruction); ok {
+					cs := CallSite{ci, calleeOf(ci.Common()), f}
+					if m := c01FieldCall(cs, "Discard", "DiscardKey"); m != nil && len(cs.Args()) >= 2 {
+						removals[m] = append(removals[m], c01KeyedOp{in, f, cs.Args()[1]})
+					}
+				}
+			}
+		}
+	}
+	callersOf := func(g *ssa.Function) []ssa.CallInstruction {
+		var out []ssa.CallInstruction
+		for _, cs := range calls {
+			if calleeFn(cs.Common()) == g {
+				out = append(out, cs.Instr)
+			}
+		}
+		return out
+	}
+	paramIndex := func(g *ssa.Function, v ssa.Value) int {
+		os := origins(v, nil)
+		if len(os) != 1 {
+			return -1
+		}
+		for i, q := range g.Params {
+			if os[0].V == q {
+				return i
+			}
+		}
+		return -1
+	}
+	for _, b := range batches {
+		name := b.Owner.Name() + "." + b.S.Name()
+		// ---- premises: containers that receive the key where it is queued
+		prem := map[*types.Var]string{} // M -> where established
+		note := func(f *ssa.Function, at ssa.Instruction, kr string) {
+			for _, ins := range c01KeyedInserts(f, kr) {
+				if sibling(b, ins.M) && (instrReaches(ins.In, at) || instrReaches(at, ins.In)) {
+					if _, dup := prem[ins.M]; !dup {
+						prem[ins.M] = fnName(f)
+					}
+				}
+			}
+		}
+		for _, a := range b.Adds {
+			k := a.Args()[1]
+			note(a.Fn, a.Instr, c01Root(k))
+			if idx := paramIndex(a.Fn, k); idx >= 0 && a.Fn.Parent() == nil {
+				for _, ci := range callersOf(a.Fn) {
+					if idx < len(ci.Common().Args) {
+						note(ci.Parent(), ci, c01Root(ci.Common().Args[idx]))
+					}
+				}
+			}
+		}
+		var loopNames []string
+		for _, l := range b.Loops {
+			loopNames = append(loopNames, fnName(l.Top))
+		}
+		sort.Strings(loopNames)
+		n := 0
+		var ms []*types.Var
+		for m := range prem {
+			ms = append(ms, m)
+		}
+		sort.Slice(ms, func(i, j int) bool { return ms[i].Name() < ms[j].Name() })
+		for _, m := range ms {
+			rems := removals[m]
+			if len(rems) == 0 {
+				continue
+			}
+			reread := true
+			for _, l := range b.Loops {
+				if !c01KeyedReads(l.Body, l.Body.Params[0], m, 0) {
+					reread = false
+				}
+			}
+			byFn := map[string][]c01KeyedOp{}
+			for _, r := range rems {
+				byFn[fnName(topFn(r.Fn))] = append(byFn[fnName(topFn(r.Fn))], r)
+			}
+			for _, fnm := range sortedKeys(byFn) {
+				n++
+				key := "C01.pendinglive/" + name + "/" + m.Name() + "@" + fnm
+				site := p.Pos(byFn[fnm][0].In.Pos())
+				if reread {
+					c.Ok(key, site, "%s queues a key in %s where it enters %s; the flush loop in %v re-reads %s at the iteration key, so removal in %s cannot leave a stale action", prem[m], b.S.Name(), m.Name(), loopNames, m.Name(), fnm)
+					continue
+				}
+				good := true
+				for _, r := range byFn[fnm] {
+					ok := c01Cancelled(pd, r.In, r.Key, b.S, m)
+					if !ok {
+						if idx := paramIndex(r.Fn, r.Key); idx >= 0 && r.Fn.Parent() == nil {
+							cs := callersOf(r.Fn)
+							ok = len(cs) > 0
+							for _, ci := range cs {
+								if idx >= len(ci.Common().Args) || !c01Cancelled(pd, ci, ci.Common().Args[idx], b.S, m) {
+									ok = false
+								}
+							}
+						}
+					}
+					if !ok {
+						good = false
+						site = p.Pos(r.In.Pos())
+					}
+				}
+				c.Check(good, key, site,
+					fmt.Sprintf("removal from %s in %s is accompanied by %s.Discard(same key) (unconditionally or once %s no longer contains the key)", m.Name(), fnm, b.S.Name(), m.Name()),
+					fmt.Sprintf("%s queues a key in %s.%s where the key enters %s; %s removes the key from %s without %s.Discard(same key), and the flush loop in %v does not re-read %s for the queued key: started-then-stopped between two flushes leaves a queued action for something that no longer holds, so what the flush does depends on the history and not on the current state", prem[m], b.Owner.Name(), b.S.Name(), m.Name(), fnm, m.Name(), b.S.Name(), loopNames, m.Name()))
+			}
+		}
+		if n == 0 {
+			c.Ok("C01.pendinglive/"+name, p.Pos(b.S.Pos()), "no Add site of %s records the queued key in a sibling map/set/multidict that is ever shrunk: entries carry no premise that could be retracted (flush loops: %v)", b.S.Name(), loopNames)
+		}
+	}
+}
+
+// ----------------------------------------------------------------- twin --
+
+func c01Twin(c *Ctx, p *Prog) {
+	pairs := c01FindTwins(p, calcPkg, func(fd *ast.FuncDecl, info *types.Info) bool { return true })
+	for _, pr := range pairs {
+		key := "C01.twin/" + pr.Fn + "/" + pr.Label
+		site := p.Pos(pr.A.Pos())
+		if len(pr.Unsub) > 0 {
+			site = p.Pos(pr.UnsubAt)
+		}
+		c.Check(len(pr.Unsub) == 0, key, site,
+			fmt.Sprintf("IPv4 block at %s and its IPv6 twin at %s differ exactly by the IPv4->IPv6 substitution (%d substituted leaves)", p.Pos(pr.A.Pos()), p.Pos(pr.B.Pos()), pr.NTwin),
+			fmt.Sprintf("%s: the IPv4 block at %s and its IPv6 twin at %s are copies of each other, but the IPv4<->IPv6 substitution is incomplete: %s — one address family's output is computed from (and only re-evaluated on changes of) the other family's input", pr.Fn, p.Pos(pr.A.Pos()), p.Pos(pr.B.Pos()), strings.Join(pr.Unsub, "; ")))
+	}
 }
